@@ -601,3 +601,10 @@ R("c01-r-inmem-nack-helper", ["C01"], [(MBRK, '''        q = self.queues[key.que
             q.processing.remove(held)
             q.dead.append(held)
 ''')])
+
+# ----------------------------------------------------------------------------------------------- extra coverage
+M("c01-declare-wipes-existing", ["C01"], [(MBRK, "        if queue_name not in self.queues:\n            self.queues[queue_name] = DummyQueue()\n", "        self.queues[queue_name] = DummyQueue()\n")], "R-C01-TRANSFER")
+M("c01-shared-default-queue", ["C01"], [("repid/connections/in_memory/utils.py", "    simple: asyncio.Queue[Message] = field(default_factory=asyncio.Queue)", "    simple: asyncio.Queue[Message] = field(default=asyncio.Queue())")], "R-C01-TRANSFER")
+M("c03-aexit-no-finish", ["C03"], [("repid/connections/abc.py", "    async def __aexit__(self, *exc: object) -> None:\n        await self.finish()", "    async def __aexit__(self, *exc: object) -> None:\n        await self.pause()")], "R-C03-FINISH")
+M("c13-redis-expiry-from-ttl-only", ["C13"], [("repid/connections/redis/bucket_broker.py", "exat=payload.timestamp + payload.ttl if payload.ttl is not None else None,", "ex=payload.ttl,")], "R-C13-FIELDS")
+M("c18-asyncify-drops-kwargs", ["C18"], [("repid/_asyncify.py", "partial(fn, *args, **kwargs),  # type: ignore[arg-type]", "partial(fn, *args),  # type: ignore[arg-type]")], "R-C18-FLOW")
